@@ -158,8 +158,18 @@ def check_case(case) -> Result:
     else:
         near_pb = (pb - p) < 2e-4 * pb  # the finite-difference cross-check would straddle the kink
         if near_pb:
-            out = lib("solution_gor_Standing(Dual)", O.solution_gor_Standing, T, Dual(p, 1.0), api, sg, gor)
-            want, tol = (out.d if isinstance(out, Dual) else 0.0), 1e-12
+            try:
+                out = O.solution_gor_Standing(T, Dual(p, 1.0), api, sg, gor)
+                want, tol = (out.d if isinstance(out, Dual) else 0.0), 1e-12
+            except Exception:  # noqa: BLE001 - the parent coerces its argument (np.asarray / float): no AD through it
+                # one-sided (towards lower pressure) second-order difference quotients, Richardson-extrapolated:
+                # every evaluation point stays on the saturated side of the kink
+                f = lambda q: float(O.solution_gor_Standing(T, q, api, sg, gor))  # noqa: E731
+                h = 1e-3 * p
+                d1 = (3 * f(p) - 4 * f(p - h) + f(p - 2 * h)) / (2 * h)
+                d2 = (3 * f(p) - 4 * f(p - h / 2) + f(p - h)) / h
+                want, tol = (4 * d2 - d1) / 3, 1e-6
+                res.labels["ad_fallback"] = "solution_gor_Standing (near p_b)"
         else:
             want, tol = _parent_derivative(res, "solution_gor_Standing", lambda q: O.solution_gor_Standing(T, q, api, sg, gor), p)
         if form == "np.float32":
